@@ -292,6 +292,32 @@ func (s *State) solveUncached(vars []*Term, extra ...*Term) (SatResult, map[stri
 			s.ex.noteUnknownMsg("model returned by " + fb.Name + " does not satisfy the query (rejected)")
 			r, m = Unknown, nil
 		}
+		if r == Sat && vars != nil && fb.Name == "cvc5-int" {
+			// the integer encoding has returned models that do not satisfy the bit-vector query (and
+			// that the evaluator cannot judge when they are partial): a model from this back end is
+			// only used if the primary solver accepts the query with the model's values pinned
+			pinned := append([]*Term{}, extra...)
+			for _, v := range vars {
+				if val, ok := m[v.Name]; ok && v.Op == OVar && v.W > 0 {
+					pinned = append(pinned, Eq(v, Const(v.W, val)))
+				}
+			}
+			s.solver.SetTimeout(full)
+			pr := s.solver.Check(pinned...)
+			s.solver.SetTimeout(short)
+			if pr == Unknown {
+				for _, fb2 := range s.fallbacks {
+					if fb2.Name != "cvc5-int" {
+						pr, _ = fb2.CheckFresh(s.pc, nil, pinned)
+						break
+					}
+				}
+			}
+			if pr != Sat {
+				s.ex.noteUnknownMsg("model returned by cvc5-int not confirmed by a bit-vector solver (rejected)")
+				r, m = Unknown, nil
+			}
+		}
 		if r != Unknown {
 			s.ex.noteFallback()
 			return r, m
